@@ -4,7 +4,7 @@ MANIFEST = dict(
     category="other",
     text="Decided on the real bodies for bounded sizes: the ROC curve of every label pattern and every score order (scores symbolic, no ties) "
          "starts at (0,0), has one point per object in descending score order with coordinates count/total, is monotone and ends at (1,1), the precision-recall curve starts at (0,1), has non-decreasing recall ending at 1 with each point = (tp/positives, tp/(tp+fp)); "
-         "R2, MSE, RMSE, MAE and BIAS equal their formulas on exact instances (integer truths/predictions 0..3, 2 or 4 elements, total sum of squares a power of two: every intermediate is exactly representable, so the "
+         "R2, MSE, RMSE, MAE and BIAS equal their formulas on exact instances (integer truths/predictions 0..3, 2 elements, total sum of squares a power of two: every intermediate is exactly representable, so the "
          "obligation is independent of the evaluation order; sqrt uninterpreted), with errors 0 and R2 = 1 for perfect prediction, and a missing-coded truth in any position is ignored (3 elements, one missing-coded: each figure equals its formula over the other two); "
          "the general-data form of the 'missing-coded truths are ignored' obligation for R2/MSE/MAE/BIAS (value equals the function on the vectors without that element) is only attempted in the thorough tier: no back end finished it within 15 minutes; the PLS "
          "statistic tables are R2/RMSE/BIAS applied per response and latent variable to the right columns with missing-coded rows removed.",
@@ -38,7 +38,7 @@ def jobs(tier):
             J.append(Job("missing_ignored@%s,k=%d" % (nm, k), "C15/stats.c", entry="h_missing_ignored", srcs=S + ["statistic.c"], kind="bounded",
                          defines={"VC_UNIT_MISSING": None, "VC_N": 3, "VC_K": k, "VC_WHICH": which}, unwind=6, functions=[nm], timeout=1200, tier="thorough", advisory=True, bound="3 elements, missing code at position %d; values symbolic in (-1e3,1e3)" % k,
                          clause="%s ignores a missing-coded truth (equal to the value on the vectors without it)" % nm))
-    for n in ((2,) if tier == "quick" else (2, 4)):   # 2 or 4 elements: exact instances (4: ~10 min)
+    for n in (2,):   # 2 elements: every division is by 1 or 2, so even a running-mean evaluation stays exact
         J.append(Job("regression_formulas@n=%d" % n, "C15/stats.c", entry="h_regression_formulas", srcs=S + ["statistic.c"], mode="ieee", kind="bounded",
                      defines={"VC_UNIT_FORMULAS": None, "VC_N": n}, unwind=n + 4, functions=["R2", "MSE", "RMSE", "MAE", "BIAS"], stubs=["stubs/usqrt_stub.c"], timeout=900,
                      bound="%d elements; cells symbolic in {0,1,2,3}, total sum of squares a power of two (IEEE, exact instances)" % n,
